@@ -396,7 +396,7 @@ class Rule(NamedBox):
         return ri
 
     def _pretty(self, lean=False):
-        str_template = "{is_name}{no_memo}{name}{base}{params}:{exp}"
+        str_template = "{is_name}{no_memo}{name}{params}{base}:{exp}"
 
         if lean:
             params = ''
